@@ -269,7 +269,7 @@ Lemma ns_hasDot it t : valid it -> front it = Some t -> nsb (t_type t) = true ->
 Proof.
   intros V F Hns. destruct (valid_front it V) as (t' & r & _ & Hn & F'). rewrite F in F'. inversion F'; subst t'.
   pose proof (wf_ns _ _ Hwf) as Hall. rewrite Forall_forall in Hall.
-  destruct (Hall t (nth_error_In _ _ Hn)) as [H|H]; [congruence|].
+  destruct (Hall t (nth_error_In _ _ Hn)) as [[H|H] _]; [congruence|].
   unfold hasDot. apply existsb_exists. exists 46. split; [exact H|reflexivity].
 Qed.
 
@@ -328,6 +328,16 @@ Proof.
 Qed.
 
 Ltac r_call ::= first [apply parseLCIdentNS_R|apply parseUCIdentNS_R|apply parseVarIdent_R|apply parseTypeRefAsName_R]; [assumption|lia].
+
+(** a token whose value is "Type" is not white space (so skipWS does not move past it) *)
+Lemma val_Type_nonws it t : valid it -> front it = Some t -> t_val t = [84; 121; 112; 101] -> isWS (t_type t) = false.
+Proof.
+  intros V F Hv. destruct (valid_front it V) as (t' & r & _ & Hn & F'). rewrite F in F'. inversion F'; subst t'.
+  pose proof (wf_ns _ _ Hwf) as Hall. rewrite Forall_forall in Hall.
+  destruct (Hall t (nth_error_In _ _ Hn)) as [_ H].
+  destruct (isWS (t_type t)) eqn:W; [|reflexivity]. exfalso.
+  change (isWS (t_type t)) with (isWSty (t_type t)) in W. apply (H W). rewrite Hv. reflexivity.
+Qed.
 
 Lemma front_nonempty it t : valid it -> front it = Some t -> t_type t <> T_eof -> t_val t <> [].
 Proof.
